@@ -450,6 +450,11 @@ class FileRoundTrip(Scenario):
                         "isValue": dv_is_value, "property": None if dv_is_value else str(d2.uid), "value": 2.5}
             ui["flt"] = {"main": True, "label": "F", "value": flt}
             ui["txt"] = {"main": True, "label": "T", "value": "some text"}
+            g_en = bool(cx.bool("group_enabled"))
+            ui["gswitch"] = {"main": True, "label": "GS", "value": 1, "group": "Group one", "groupOptional": True, "enabled": g_en}
+            ui["gmember"] = {"main": True, "label": "GM", "value": 2.0, "group": "Group one"}
+            # a member whose own enabled state equals its group's (not in the class of F-C14-3): compared in full
+            ui["gsame"] = {"main": True, "label": "GE", "value": "keep", "group": "Group one", "enabled": g_en}
             for key, opt, en in (("object", obj_opt, obj_en), ("data", data_opt, data_en), ("flt", flt_opt, flt_en)):
                 if opt:
                     ui[key]["optional"] = True
@@ -463,8 +468,12 @@ class FileRoundTrip(Scenario):
             a_enabled = {k: v.get("enabled", True) for k, v in a.ui_json.items() if isinstance(v, dict)}
             demoted = InputFile.demote(dict(da))
             path = a.write_ui_json("rt.ui.json", path=work)
-        b = InputFile.read_ui_json(path)
-        db = b.data
+        try:
+            b = InputFile.read_ui_json(path)
+            db = b.data
+        except Exception as e:  # noqa: BLE001
+            cx.prove(False, f"a file just written can be read back ({type(e).__name__})", "file round trip")
+            return f"read raised {type(e).__name__}"
         b_enabled = {k: v.get("enabled", True) for k, v in b.ui_json.items() if isinstance(v, dict)}
         cx.prove(list(da) == list(db), "same parameters after the round trip", "file round trip")
         cx.prove(a_enabled == b_enabled, "same enabled states after the round trip", "file round trip")
@@ -476,6 +485,8 @@ class FileRoundTrip(Scenario):
                 return _os.path.realpath(str(x.h5file)) == _os.path.realpath(str(y.h5file))
             return type(x) is type(y) and x == y
         for k in da:
+            if k in ("gswitch", "gmember"):
+                continue        # data values of group-optional members: open finding F-C14-3 (enabled states are still compared)
             if k in db:
                 cx.prove(same(da[k], db[k]), f"parameter {k!r} reads back the same value", "file round trip")
         # expected values from the switches
